@@ -145,6 +145,10 @@ class ExprGen:
             fn = rng.choice(self.funcs[ty])
             self._note('func', fn['name'], fn['intypes'])
             args = [self.arg_for(t, depth - 1) for t in fn['intypes']]
+            if fn['name'] == 'str':
+                # str() shows the sign of a zero; signed zeros (-1 * 0.000) are outside the model: no arithmetic below str()
+                t0 = fn['intypes'][0]
+                args = [self.leaf(t0 if t0 in BASIC else rng.choice(BASIC))]
             if fn['name'] in ('round',) and len(args) == 2:
                 args[1] = ast.Constant(rng.choice([0, 1, 2, 3]))
             if fn['name'] == 'date' and len(args) == 3:
